@@ -6,12 +6,21 @@
     media type (K20, refuted by a witness and recorded); the two defects of the pinned tree in
     this function (K4: only the last status-less content reached `default`; F9: headers and
     description of earlier contents of a status were dropped) are refuted for the pinned step
-    and hold for the fixed one. The full statement — the whole document equals the denotation
+    and hold for the fixed one. On the evaluator and builder models (Model/Eval.v,
+    Model/Builder.v, tied to eval.rs and to oal-openapi on every run: identical Spec, identical
+    JSON document): a relation holds, for every method, the last of its transfers that
+    declares the method, and none when no transfer declares it
+    ([C02_relation_keeps_last_transfer_per_method], [C02_declared_method_has_transfer]); a path
+    item lists exactly the operations of the methods that have a transfer, in method order
+    ([C02_operations_are_the_declared_methods]); the keys of `paths` are the patterns of the
+    relations, each once, in order of first appearance ([C02_path_keys_are_the_patterns]; a
+    repeated pattern keeps the item of the last relation: K3). The full statement — the whole document equals the denotation
     of the program — is carried by monitor O02: an independent reference semantics (lexical
     environments, declarations by (module, name), top-down annotation flow, named components)
     computed from the generator's abstract syntax and compared with the emitted document up to
     implicit component names, on every generated accepted program. *)
 From Oal Require Import Responses ResponsesProofs.
+From Oal Require Eval Builder FaithProofs.
 
 Theorem C02_responses_lossless_partial : forall before st md c after s,
   c_schema c = Some s ->
@@ -37,3 +46,28 @@ Theorem C02_headers_overwritten_pinned_refuted :
   (match rget (Some 200%N) (xfer_responses rs) with Some r => (get 7%N (r_headers r), r_desc r) | None => (None, None) end) = (Some 70%N, Some 9%N).
 Proof. exact headers_overwritten_pinned. Qed.
 Print Assumptions C02_headers_overwritten_pinned_refuted.
+
+(** * nothing dropped or duplicated, at the level of methods and paths *)
+Theorem C02_relation_keeps_last_transfer_per_method : forall ts, Forall FaithProofs.wf_xfer ts ->
+  forall xs, length xs = 7%nat ->
+  length (fold_left Eval.add_xfer ts xs) = 7%nat /\
+  forall m, (m < 7)%nat -> nth m (fold_left Eval.add_xfer ts xs) None = FaithProofs.last_with m ts (nth m xs None).
+Proof. exact FaithProofs.relation_slots. Qed.
+Print Assumptions C02_relation_keeps_last_transfer_per_method.
+
+Theorem C02_declared_method_has_transfer : forall ts m, Forall FaithProofs.wf_xfer ts -> (m < 7)%nat ->
+  (exists t, In t ts /\ FaithProofs.has_method t m = true) <-> nth m (fold_left Eval.add_xfer ts Eval.no_xfers) None <> None.
+Proof. exact FaithProofs.declared_method_has_transfer. Qed.
+Print Assumptions C02_declared_method_has_transfer.
+
+Theorem C02_operations_are_the_declared_methods : forall strs table names u xs m l,
+  Builder.ops_json strs table names u xs m = Some l -> map fst l = FaithProofs.some_labels xs m.
+Proof. exact FaithProofs.ops_are_the_declared_methods. Qed.
+Print Assumptions C02_operations_are_the_declared_methods.
+
+Theorem C02_path_keys_are_the_patterns : forall strs table names rels m,
+  Builder.paths_json strs table names rels = Some (Builder.JObj m) ->
+  exists items, Builder.oall (map (Builder.path_item_json strs table names) rels) = Some items /\
+                map fst m = FaithProofs.dedup (map fst items) [].
+Proof. exact FaithProofs.path_keys_are_the_patterns. Qed.
+Print Assumptions C02_path_keys_are_the_patterns.
